@@ -174,24 +174,25 @@ Definition gsvd_weights (nrow ncol : nat) (A : mat) (reg : Q) : vec * vec :=
 Definition gsvd_diag (pw : Q -> Q) (w : vec) : vec := map (fun x => pinv (pw x)) w.
 (** What is handed to the SVD solver: [diag_row . adjacency_reg . diag_col]. *)
 Definition gsvd_operator (prow pcol : Q -> Q) (nrow ncol : nat) (A : mat) (reg : Q) : sparselr :=
-  let '(wr, wc) := gsvd_weights nrow ncol A reg in
-  slr_left_diag (gsvd_diag prow wr) (slr_right_diag (gsvd_reg_matrix nrow ncol A reg) (gsvd_diag pcol wc)).
+  let W := gsvd_weights nrow ncol A reg in
+  slr_left_diag (gsvd_diag prow (fst W)) (slr_right_diag (gsvd_reg_matrix nrow ncol A reg) (gsvd_diag pcol (snd W))).
 
 (** After the solver ([sU], [sS], [sV] = attributes of the solver, [index = argsort(-singular_values)]):
-    returns (singular_values_, singular_vectors_left_, singular_vectors_right_,
-             embedding_row (unnormalised), embedding_col (unnormalised)).
+    [singular_values[index]], [U[:, index]], [V[:, index]];
+    [embedding_row = (diags(sv ** (1 - fs)) . (diag_row . U)^T)^T], [embedding_col] likewise with [sv ** fs].
     [psl s = s ^ (1 - factor_singular)], [psr s = s ^ factor_singular] are oracles. *)
+Definition gsvd_sv (sS : vec) (index : list nat) : vec := map (nthq sS) index.
+Definition gsvd_emb_row (prow psl : Q -> Q) (nrow ncol : nat) (A : mat) (reg : Q) (sU : mat) (sS : vec) (index : list nat) : mat :=
+  map (fun r => vmul (map psl (gsvd_sv sS index)) r)
+      (row_scale (gsvd_diag prow (fst (gsvd_weights nrow ncol A reg))) (take_cols index sU)).
+Definition gsvd_emb_col (pcol psr : Q -> Q) (nrow ncol : nat) (A : mat) (reg : Q) (sV : mat) (sS : vec) (index : list nat) : mat :=
+  map (fun r => vmul (map psr (gsvd_sv sS index)) r)
+      (row_scale (gsvd_diag pcol (snd (gsvd_weights nrow ncol A reg))) (take_cols index sV)).
+(** (singular_values_, singular_vectors_left_, singular_vectors_right_, embedding_row, embedding_col), unnormalised. *)
 Definition gsvd_core (prow pcol psl psr : Q -> Q) (nrow ncol : nat) (A : mat) (reg : Q)
            (sU : mat) (sS : vec) (sV : mat) (index : list nat) : vec * mat * mat * mat * mat :=
-  let '(wr, wc) := gsvd_weights nrow ncol A reg in
-  let sv := map (nthq sS) index in
-  let Ul := take_cols index sU in
-  let Vr := take_cols index sV in
-  let sl := map psl sv in
-  let sr := map psr sv in
-  let emb_row := map (fun r => vmul sl r) (row_scale (gsvd_diag prow wr) Ul) in
-  let emb_col := map (fun r => vmul sr r) (row_scale (gsvd_diag pcol wc) Vr) in
-  (sv, Ul, Vr, emb_row, emb_col).
+  (gsvd_sv sS index, take_cols index sU, take_cols index sV,
+   gsvd_emb_row prow psl nrow ncol A reg sU sS index, gsvd_emb_col pcol psr nrow ncol A reg sV sS index).
 
 Definition gsvd_fit (prow pcol psl psr norm_o : Q -> Q) (normalized : bool) (nrow ncol : nat) (A : mat) (reg : Q)
            (sU : mat) (sS : vec) (sV : mat) (index : list nat) : vec * mat * mat * mat * mat :=
